@@ -1181,6 +1181,16 @@ def run(ctx):
 
 
 def replay(ctx, data):
-    inp = data['input']
+    inp = data.get('input')
+    if inp is None:
+        # a 'no-failing-input-found' replay: re-run the first disagreeing input it names, if any
+        for b in data.get('broken_obligations', []):
+            det = b.get('detail')
+            if isinstance(det, dict) and isinstance(det.get('input'), dict) and 'scenario' in det['input']:
+                inp = det['input']
+                break
+    if inp is None:
+        ctx.note('replay file names no input (a theorem/build obligation): nothing to re-run')
+        return
     r = replay_run(inp['scenario'], inp.get('choices', []), inp.get('granular', True))
     report(ctx, 'net-corpus', [r])
